@@ -83,6 +83,20 @@ impl SubCheck for C03Cli {
         for ord in orders {
             let outp = root.join(format!("out.{}", lang.ext()));
             let _ = std::fs::remove_file(&outp);
+            // half of the clean cases: the output path already holds the (longer) result of an earlier run over a tree
+            // that had one more annotated item - what is generated now must be exactly the current tree's items
+            let regenerated = c.bad_in_file.is_none() && wsx.files.len() % 2 == 0;
+            if regenerated {
+                let prev = root.join("tree_prev");
+                cli::write_tree(&prev, &wsx.tree());
+                cli::write_tree(&prev, &[("zz-extra/src/lib.rs".into(), b"#[typeshare]\npub struct LeftOverFromEarlierRun {\n    pub stale_field_one: String,\n    pub stale_field_two: Vec<Option<String>>,\n    pub stale_field_three: HashMap<String, Vec<u32>>,\n}\n\n#[typeshare]\npub enum LeftOverEnumFromEarlierRun {\n    StaleVariantOne,\n    StaleVariantTwo,\n    StaleVariantThree,\n}\n".to_vec())]);
+                let mut pargs = cli::lang_args(lang, &cfg);
+                pargs.extend(["-o".into(), outp.to_string_lossy().into_owned(), prev.to_string_lossy().into_owned()]);
+                let _ = cli::run(&pargs, &root, &[], Duration::from_secs(20));
+                if counting {
+                    run.label(&format!("c03cli/{}/into-the-output-of-an-earlier-run", lang.short()));
+                }
+            }
             let mut args = cli::lang_args(lang, &cfg);
             args.extend(["-o".into(), outp.to_string_lossy().into_owned(), tree.to_string_lossy().into_owned()]);
             let env: Vec<(String, String)> = ord.map(|o| vec![("TYPESHARE_VERIF_ORDER".to_string(), o.to_string())]).unwrap_or_default();
@@ -110,6 +124,14 @@ impl SubCheck for C03Cli {
                 continue;
             }
             let text = std::fs::read_to_string(&outp).unwrap_or_default();
+            if regenerated {
+                for stale in ["LeftOverFromEarlierRun", "LeftOverEnumFromEarlierRun", "stale_field", "StaleVariant"] {
+                    if text.contains(stale) {
+                        out.push(Violation::new(format!("cli/{}/item-extra/left-over-from-earlier-run", lang.short()), format!("{}: `{stale}` belongs to an item that is no longer in the source tree but is still in the output file after re-generation", lang.name())));
+                        break;
+                    }
+                }
+            }
             for decoy in ["FromReadme", "FromNotes", "NeverAnnotated"] {
                 if text.contains(decoy) {
                     out.push(Violation::new(format!("cli/{}/item-extra/decoy-file", lang.short()), format!("{}: `{decoy}` (from a non-Rust or un-annotated file) appears in the output", lang.name())));
